@@ -76,7 +76,7 @@ TECH = {
  "cli": "TLC trace validation (TraceStore + differential front-end rule) of model-generated behaviours executed by the real xs binary",
  "dur": "TLC model checking of XsDurable + real kill images and reconstructed power-loss images recovered by the real store + TLC trace validation (TraceDurable)",
  "codec": "TLC enumeration of a TLA+ transcription of the codec + one implementation test per model case, results validated by TLC",
- "proc": "TLC model checking of XsHandlers/XsCommands/XsGenerators + TLC trace validation (TraceProc) of client histories executed on the real serve loops, restarts by killing the serving process",
+ "proc": "TLC model checking of XsHandlers/XsCommands/XsGenerators (invariants; temporal properties under weak fairness for commands and generators) + TLC trace validation (TraceProc) of client histories executed on the real serve loops, restarts by killing the serving process",
  "http": "TLC trace validation (TraceStore + status rules) of model-generated behaviours executed over HTTP, plus malformed request classes",
  "conc": "TLC model checking of XsConcurrent (invariants, and temporal properties under weak fairness) + gate-scheduled replay/exploration of real threads + TLC trace validation (TraceFollow)",
  "store": "TLC model checking of XsStore + TLC trace validation (TraceStore) of replayed behaviours on the real store",
@@ -102,8 +102,8 @@ PROP = {
  "C15": "proc: every output group = explicit appends in call order then the return frame on <name><suffix> with the configured ttl, all stamped {handler_id, frame_id}, in the handler's context whatever --context said, content in CAS and as predicted (every nu return type, colliding user meta, meta values through nu); a failing invocation leaves nothing but one .unregistered with the error.",
  "C16": "proc: one announcement per registration (.registered, or .unregistered with error for invalid scripts), stop by a later (un)register of the (context, name) - also one the handler appends itself - or a failing trigger, announced exactly once, silent afterwards; at most one responder per (context, name); names that are prefixes of one another. Known findings C16-double-register / C16-unregister-in-flight by their specific pattern only.",
  "C17": "proc: restart = SIGKILL or exit of the serving process (in thorough: at every position of TLC-generated client lists) and start on the same directory: exactly the active handlers come back with their ids per (context, name), latest valid command definitions answer, accepted generators run again; stopped / replaced / failed ones do not; no historical trigger or call is re-executed.",
- "C18": "proc: per accepted spawn `start recv* stop` per lifecycle with source_id, context and contents in order, respawn after stop (up to three lifecycles observed), exactly one spawn.error for a refused spawn (no content, (context, name) taken), a refused spawn never runs - not at a later respawn either; duplex sends of its own context fed once, in order. Known finding C18-generator-worker-panic by its pattern only.",
- "C19": "proc: per call `recv* (complete | error)`, exactly one terminal, last; stamps {command_id, frame_id}; caller's context; latest valid definition of the (context, name); invalid definition reported by .error and never used; per-call isolation ($env), overlapping calls (sleeping closure) keep their stamps apart; explicit .append incl. a byte stream arriving in pieces; no replay after restart.",
+ "C18": "proc: per accepted spawn `start recv* stop` per lifecycle with source_id, context and contents in order, respawn after stop (up to three lifecycles observed), exactly one spawn.error for a refused spawn (no content, (context, name) taken), a refused spawn never runs - not at a later respawn either; duplex sends of its own context fed once, in order. Known finding C18-generator-worker-panic by its pattern only. As progress (XsGenerators FairSpec, MC_proc_live_g): every spawn ends up answered, every started terminating pipeline ends up with its .stop, the accepted latest spawns end up started again after a restart (L_EverySpawnAnswered, L_StartedTaskStops, L_Restored; vacuity guards CompactByRef = FALSE, Panics = TRUE).",
+ "C19": "proc: per call `recv* (complete | error)`, exactly one terminal, last; stamps {command_id, frame_id}; caller's context; latest valid definition of the (context, name); invalid definition reported by .error and never used; per-call isolation ($env), overlapping calls (sleeping closure) keep their stamps apart; explicit .append incl. a byte stream arriving in pieces; no replay after restart. As progress (XsCommands FairSpec, MC_proc_live_c): under weak fairness of the serve loop and the call tasks every call that met a definition ends up with all its values and exactly one terminal event, every invalid definition ends up reported, the table ends up restored after a restart (L_EveryCallAnswered, L_InvalidReported, L_Restored).",
  "C20": "store/http: export of a TLC/random-built store imported in random order with duplicates into an empty store (Store API and POST /cas + POST /import): same frames, heads, content, usable contexts; import keeps ids, identical re-import is a no-op, NUL topic or a different frame under a stored id is rejected whole; cli: the transfer through `xs cas-post` / `xs import` / `xs cat` / `xs cas`.",
 }
 
